@@ -140,6 +140,29 @@ func (d *Desc) BigComp() bool {
 	return false
 }
 
+// ManyEmpty tells whether some name of the description (packet name, forwarding hint, key locator)
+// holds four or more zero-length components (used to qualify violation keys).
+func (d *Desc) ManyEmpty() bool {
+	cnt := func(cs []Comp) int {
+		n := 0
+		for _, c := range cs {
+			if c.Len == 0 {
+				n++
+			}
+		}
+		return n
+	}
+	if cnt(d.Name) >= 4 {
+		return true
+	}
+	for _, h := range d.Hint {
+		if cnt(h) >= 4 {
+			return true
+		}
+	}
+	return d.Signer >= 0 && Signers()[d.Signer].Name == "hmac-klempty"
+}
+
 // SplitClasses are the buffer-split classes of a payload of n bytes.
 var SplitClasses = []string{"", "0|n", "1|r", "h|h", "r|1", "n|0", "1|m|1", "t|t|t", "0|n|0"}
 
@@ -292,8 +315,11 @@ func normPanic(s string) string {
 	return string(out)
 }
 
-// Build runs spec.Spec{}.MakeInterest / MakeData on the description.
-func Build(d *Desc) (b *Built) {
+// Build runs spec.Spec{}.MakeInterest / MakeData on the description with a fresh signer object.
+func Build(d *Desc) *Built { return BuildWith(d, nil) }
+
+// BuildWith is Build with the signer objects taken from pool (nil: fresh object).
+func BuildWith(d *Desc, pool *SignerPool) (b *Built) {
 	b = &Built{Desc: d}
 	name := MkName(d.Name, 0)
 	b.Name = MkName(d.Name, 0)
@@ -301,7 +327,11 @@ func Build(d *Desc) (b *Built) {
 	if d.Signer >= 0 {
 		sp := Signers()[d.Signer]
 		b.SignerSp = &sp
-		b.Rec = &RecSigner{Inner: sp.New()}
+		if pool != nil {
+			b.Rec = &RecSigner{Inner: pool.Get(d.Signer)}
+		} else {
+			b.Rec = &RecSigner{Inner: sp.New()}
+		}
 		signer = b.Rec
 	}
 	defer func() {
@@ -447,6 +477,18 @@ func Devs(interest bool) []Dev {
 			})
 		}
 	}
+	e, a := Comp{8, 0}, Comp{8, 1}
+	shapes := map[string][]Comp{
+		"a+4e+b": {a, e, e, e, e, {8, 2}},
+		"4e":     {e, e, e, e},
+		"8e":     {e, e, e, e, e, e, e, e},
+		"5e+a":   {e, e, e, e, e, a},
+		"a+6e":   {a, e, e, e, e, e, e},
+	}
+	for _, k := range []string{"a+4e+b", "4e", "8e", "5e+a", "a+6e"} {
+		sh := shapes[k]
+		add("name.shape", k, func(d *Desc) { d.Name = cloneComps(sh) })
+	}
 	for _, s := range paySizes {
 		s := s
 		add("pay.size", fmt.Sprint(s), func(d *Desc) { d.PaySize = s })
@@ -470,7 +512,8 @@ func Devs(interest bool) []Dev {
 			add("mbf", fmt.Sprint(v), func(d *Desc) { d.MustBeFresh = v })
 		}
 		hints := [][][]Comp{nil, {}, {{{8, 1}}}, {{{8, 1}}, {{8, 2}, {0x36, 1}}}, {{{8, 0}}}, {{{8, 1}, {8, 0}}},
-			{{{8, 250}}}, {{{8, 252}}}, {{{8, 253}}}, {{{8, 65536}}}, {{}}}
+			{{{8, 250}}}, {{{8, 252}}}, {{{8, 253}}}, {{{8, 65536}}}, {{}},
+			{{{8, 1}, {8, 0}, {8, 0}, {8, 0}, {8, 0}, {8, 2}}}, {{{8, 0}, {8, 0}, {8, 0}, {8, 0}, {8, 0}, {8, 0}, {8, 0}, {8, 0}}}}
 		for _, h := range hints {
 			h := h
 			lab := "absent"
@@ -615,4 +658,84 @@ func Enumerate(bases []Base, k int, skipDims ...string) *Space {
 		}
 	}
 	return s
+}
+
+// ---------------------------------------------------------------------------------------------
+// outer length boundary sweep
+
+func tlSize(v int) int {
+	switch {
+	case v < 253:
+		return 1
+	case v <= 0xffff:
+		return 3
+	}
+	return 5
+}
+
+// OuterLengths derives, from the size of the built packet alone (not from its possibly wrong
+// header), the outer length the packet must have (final), the length the encoder planned with
+// the signer's estimate (est = final + shrink) and whether the outer length FIELD got shorter.
+func (b *Built) OuterLengths() (final, est, shrink int, crosses bool) {
+	n := len(b.Bytes)
+	for _, hs := range []int{1, 3, 5} {
+		if l := n - 1 - hs; l >= 0 && tlSize(l) == hs {
+			final = l
+		}
+	}
+	if b.Rec != nil && b.Rec.Asked {
+		shrink = int(b.Rec.Inner.EstimateSize()) - len(b.Rec.SigVal)
+	}
+	est = final + shrink
+	return final, est, shrink, tlSize(est) != tlSize(final)
+}
+
+// SweepTargets are the estimated outer lengths the sweep lands on.
+func SweepTargets() []int {
+	var t []int
+	for v := 250; v <= 258; v++ {
+		t = append(t, v)
+	}
+	for v := 65533; v <= 65540; v++ {
+		t = append(t, v)
+	}
+	return t
+}
+
+// SweepCase is one packet of the outer-length boundary sweep.
+type SweepCase struct {
+	Label  string
+	Desc   Desc
+	Target int
+}
+
+// Sweep enumerates, for every given base signed by every variable-signature-length signer
+// (ECDSA family), the payload sizes for which the ESTIMATED outer length equals each target.
+func Sweep(bases []Base) []SweepCase {
+	var out []SweepCase
+	for _, base := range bases {
+		for si, sg := range Signers() {
+			if sg.Family != "ecdsa" {
+				continue
+			}
+			d0 := base.Desc.clone()
+			d0.Signer, d0.PaySize, d0.PaySplit = si, 8, ""
+			b0 := Build(&d0)
+			if b0.Err != nil || b0.Panic != "" {
+				continue
+			}
+			_, est0, _, _ := b0.OuterLengths()
+			k := est0 - 8 - tlSize(8) // estimated length without the payload value and its length field
+			for _, t := range SweepTargets() {
+				for p := t - k - 5; p <= t-k-1; p++ {
+					if p >= 0 && k+p+tlSize(p) == t {
+						d := d0.clone()
+						d.PaySize = p
+						out = append(out, SweepCase{fmt.Sprintf("%s + signer=%s + estimated outer length %d (payload %d)", base.Name, sg.Name, t, p), d, t})
+					}
+				}
+			}
+		}
+	}
+	return out
 }
